@@ -16,7 +16,14 @@ RULE = ("ops normal/student/chi/nd/ks; alpha: fixed grid 0.0005..0.9995 (accurac
         "polynomial switch |Normal(p)| = (n-1)/4 for n = 3..20, both signs, and 200 points (relative step 1.35e-6) at alpha = 1e-12 "
         "for Normal (every upward step is an oracle failure; C17-F2 is a known finding, C17-F3 is repaired); distinct = distinct op line; non-trivial = alpha != 0.5 / x != 0")
 TRUSTED = ["mpmath 30-digit erfc / regularised incomplete beta and gamma (quadrature of the density for dof > 5000) as the "
-           "reference distribution functions (tools/gen/c17_ref.py, run with python3-vt)"]
+           "reference distribution functions (tools/gen/c17_ref.py, run with python3-vt)",
+           "translator tools/gen/c17_statan.py (own expression parser over regex-located fragments of statan.cpp: loop exit tests, "
+           "maxd/mind rescaling block, Chi_square selector and polynomials, KSprob tests, which tail Normal takes -> Gen/StatanGen)",
+           "translator tools/gen/c17_constants.py on the C front end tools/gen/cfun.py (Normal, Student, Chi_square, "
+           "NormalDistribution whole, one definition per function, literals as exact decimals -> Gen/StatanFns; the two loop bodies "
+           "of NormalDistribution are PINNED text: a change inside a loop stops the run, it is not regenerated)",
+           "tools/gen/c17_chimono.py is NOT a translator and not run by the check: it printed the rational bounds inside "
+           "Lemmas/StatanChiMono.lean; the Lean proof re-derives the expansion by ring against the regenerated polynomials"]
 MODELLED = ["libm exp/log/pow/sqrt/sin/cos (shared by model execution and C++)",
             "IEEE rounding (theorems are about the same formulas over the reals)",
             "exit of the power-series loop of NormalDistribution: over R its test D - s <= 0 never fires (proved); in floating point "
@@ -42,17 +49,31 @@ LEVEL_TEXT = ("PARTIAL. Lean 4 theorems over R about a line-by-line model of sta
               "through Normal(p) only); both regenerated polynomials are strictly increasing in t/sqrt(n) on [-7/4, 7/4] for every "
               "n >= 3 (so Chi_square is monotone in Normal(p) inside the window t^2 <= 49n/16 - all |t| <= 3.5 for n >= 4 - and "
               "inside one piece of the selector); junction inequalities for n = 4, 16; NEG theorems: a downward step at the junction "
-              "t = -2 for n = 9 (finding C17-F2, replayed: n = 7, 8, 9) and the turned polynomial in the extreme tail (C17-F1). Model tied to the C++ by translation of the fragments + correspondence at "
+              "t = -2 for n = 9 (known finding C17-F2, replayed: n = 7, 8, 9) and the turned polynomial in the extreme tail (known finding C17-F1). "
+              "Student, 3 <= N <= 10000, on the regenerated function: Hill's tail branch ((d*2a)^(2/N) <= a + 0.05) is strictly "
+              "decreasing in the probability and positive below 1/2, mirrored above (C17_hill_tail_radicand_anti, "
+              "C17_student_mono_hill_tail); for N = 3 that is every alpha <= 1/24 (C17_student_mono_N3); the other Hill branch "
+              "(through Normal) and the junction between the branches are not proved. Normal: the model carries both forms of the "
+              "upper tail of the start value (1 - D(z) and D(-z)), selected by the regenerated flag StatanGen.normalUpperDirect - true "
+              "since /repo 708b5036 (finding C17-F3, FIXED); symmetry, definedness, fuel independence hold for both. Model tied to the C++ by translation of the fragments + correspondence at "
               "Float (bit-identical in practice). "
-              "The ACCURACY clauses (1e-6 / 5e-4 / 5e-3), MONOTONICITY beyond the closed forms and NormalDistribution(Normal(a)) = 1 - a "
+              "The ACCURACY clauses (1e-6 / 5e-4 / 5e-3), MONOTONICITY of Normal itself (hence of Chi_square n >= 3 in p, proved only "
+              "relative to it: C17_chi2_mono_given_normal), of Student's first Hill branch, and NormalDistribution(Normal(a)) = 1 - a "
               "are NOT proved (Mathlib has no verified enclosures of the normal/Student/chi-square distribution functions): they are "
               "searched on every run against mpmath references on the grid stated in the rule.")
-LEVEL_NOTE = ("partial: accuracy, monotonicity of Normal itself (hence of chi-square n >= 3 in p, proved only relative to it and "
-              "piecewise) and of the Hill branches, Phi o Normal = id are explored (mpmath; round 9: fine-grid probes at the "
-              "chi-square polynomial switch and below 1e-9 for Normal - findings C17-F2, C17-F3 in the report), not proved. The limit of the series / continued fraction is not identified with Phi. Second Hill divisor "
+LEVEL_NOTE = ("partial: accuracy, monotonicity of Normal itself (hence of chi-square n >= 3 in p, proved only relative to it, "
+              "piecewise and inside the window t^2 <= 49n/16) and of Student's first Hill branch and branch junction (the tail "
+              "branch is proved for 3 <= N <= 10000), Phi o Normal = id are explored (mpmath; fine-grid probes at the "
+              "chi-square polynomial switch and at alpha = 1e-12 for Normal: C17-F2 is a KNOWN finding - upward steps are "
+              "classified oracle failures; C17-F3 is FIXED in /repo 708b5036 - the probe is a regression test and finds no step), "
+              "not proved. hpos/hmono of C17_chi2_1_mono and hz of C17_normal_fuel are hypotheses without an instance; "
+              "C17_finite_student covers the first Hill divisor for every x <= 1, that the code's x = -Normal(u/2) is <= 1 is not "
+              "proved. KSprob's constants (1e-20, 1.18, 100) are not regenerated. The limit of the series / continued fraction is not identified with Phi. Second Hill divisor "
               "only for N <= 10000. D(-x) = 1 - D(x) is exact only outside 2.32 < |x| <= 3.5.")
 TECHNIQUE = ("Lean 4 proof (closed forms, symmetry, monotone closed forms, definedness, loop invariant/termination/truncation, "
-             "rescale invariance) + translator for the decision fragments + model/implementation correspondence + mpmath reference search")
+             "rescale invariance; polynomial monotonicity by expansion + Lipschitz bounds, Hill tail branch) + translators for the "
+             "decision fragments (c17_statan.py) and for the four functions whole (c17_constants.py, model = regenerated by "
+             "C17_statan_source_tie) + model/implementation correspondence + mpmath reference search")
 
 TOL = {"normal": 1e-6, "student": 5e-4, "chi": 5e-3}
 DOFS = list(range(1, 31)) + [40, 60, 120, 1000, 10000, 1000000]
